@@ -89,10 +89,10 @@ FIXED_AXIS = ("wedge", "revolve", "rstack", "estack", "revolved")  # built round
 STRAIGHT = [("estack", 2), ("extruded", 2), ("lofted", 2), ("shell", 2), ("connector", 1)]  # with a grid / mapped sketch: no curved edge
 
 
-def gen_entity(rs: Stream, offset=None, name: str = "s0", straight: bool = False) -> Tuple[List[Dict[str, Any]], List[str]]:
+def gen_entity(rs: Stream, offset=None, name: str = "s0", straight: bool = False, kinds=None) -> Tuple[List[Dict[str, Any]], List[str]]:
     """-> (construction ops, names of the entities to add); `offset` puts the entity somewhere else;
-    straight: only entities without curved edges"""
-    kind = rs.weighted(STRAIGHT if straight else KINDS)
+    straight: only entities without curved edges; kinds: only these"""
+    kind = rs.weighted([k_ for k_ in (STRAIGHT if straight else KINDS) if kinds is None or k_[0] in kinds])
     o = [round(rs.uniform(-3, 3), 3) for _ in range(3)]
     if offset and kind not in FIXED_AXIS:
         o = [round(o[i] + offset[i], 3) for i in range(3)]
@@ -188,10 +188,10 @@ def snapshot_entities(it: Interp, names: List[str]):
     return out
 
 
-def entity_with_chops(rs: Stream, cfg_seed: int, mode=None, offset=None, straight: bool = False, sources: str = "random"):
+def entity_with_chops(rs: Stream, cfg_seed: int, mode=None, offset=None, straight: bool = False, sources: str = "random", kinds=None):
     """-> (construction ops, chop ops, entity names, snapshot, meta); chops placed per edge family.
     mode: complete / omit / conflict (drawn when None)"""
-    ops, names = gen_entity(rs.sub("entity"), offset, straight=straight)
+    ops, names = gen_entity(rs.sub("entity"), offset, straight=straight, kinds=kinds)
     kind = ops[0]["kind"]
     meta = {"shapes": "zoo:" + kind, "cfg_seed": cfg_seed}
     it = Interp({"points": {}, "ops": ops})
